@@ -80,6 +80,10 @@ pub struct RespCase {
     pub preset_ce: Option<String>,
     /// handler sets an explicit Content-Length header (true length of what it sends)
     pub set_cl: bool,
+    /// with set_cl: use `HttpResponseBuilder::no_chunking(len)` (Content-Length header + the
+    /// head's no-chunking flag) instead of a plain header
+    #[serde(default)]
+    pub no_chunking: bool,
     pub ctype: Option<String>,
 }
 
@@ -118,6 +122,7 @@ struct Script {
     preset_ce: Option<String>,
     ctype: Option<String>,
     set_cl: bool,
+    no_chunking: bool,
     body_type: BodyType,
     /// what the handler sends
     bytes: Vec<u8>,
@@ -155,7 +160,9 @@ async fn handler(_req: HttpRequest) -> HttpResponse {
     if let Some(ct) = &s.ctype {
         b.insert_header((header::CONTENT_TYPE, ct.as_str()));
     }
-    if s.set_cl {
+    if s.set_cl && s.no_chunking {
+        b.no_chunking(s.bytes.len() as u64);
+    } else if s.set_cl {
         b.insert_header((header::CONTENT_LENGTH, s.bytes.len().to_string()));
     }
     match s.body_type {
@@ -192,6 +199,7 @@ fn script_for(c: &RespCase) -> Script {
         preset_ce: c.preset_ce.clone(),
         ctype: c.ctype.clone(),
         set_cl: c.set_cl,
+        no_chunking: c.no_chunking,
         body_type: c.body_type,
         bytes,
         chunks,
@@ -557,8 +565,8 @@ pub fn judge_resp(c: &RespCase, obs: &Obs13) -> Vec<Violation> {
     let mut out = Vec::new();
     let script = script_for(c);
     let desc = format!(
-        "status={} accept-encoding={} body={:?}/{:?} {} B chunks={} pending={} handler content-encoding={:?} handler content-length={} content-type={:?}",
-        c.status, ae_text(c), c.kind, c.body_type, script.bytes.len(), c.shape, c.pending, c.preset_ce, c.set_cl, c.ctype
+        "status={} accept-encoding={} body={:?}/{:?} {} B chunks={} pending={} handler content-encoding={:?} handler content-length={}{} content-type={:?}",
+        c.status, ae_text(c), c.kind, c.body_type, script.bytes.len(), c.shape, c.pending, c.preset_ce, c.set_cl, if c.no_chunking { " (no_chunking)" } else { "" }, c.ctype
     );
     if base.call_error.is_some() || base.unterminated.is_some() || base.body_error.is_some() {
         mc_core::machinery(format!("baseline (no Compress) run misbehaved: {:?} for {desc}", base.summary()));
@@ -932,6 +940,7 @@ pub fn enumerate(tier: &str) -> Vec<Case13> {
         status: 200,
         preset_ce: None,
         set_cl: false,
+        no_chunking: false,
         ctype: None,
     };
 
@@ -1022,7 +1031,7 @@ pub fn enumerate(tier: &str) -> Vec<Case13> {
     ];
     for status in [200u16, 204, 206, 304, 101] {
         for preset in [None, Some("gzip"), Some("identity"), Some("br")] {
-            for set_cl in [false, true] {
+            for (set_cl, no_chunking) in [(false, false), (true, false), (true, true)] {
                 for ctype in [None, Some("text/plain"), Some("application/json"), Some("image/jpeg"), Some("image/svg+xml"), Some("video/mp4")] {
                     for ae in &p3_ae {
                         for (len, body_type, chunking, shape) in &p3_bodies {
@@ -1039,6 +1048,7 @@ pub fn enumerate(tier: &str) -> Vec<Case13> {
                                 status,
                                 preset_ce: preset.map(|s| s.to_string()),
                                 set_cl,
+                                no_chunking,
                                 ctype: ctype.map(|s| s.to_string()),
                                 ..base.clone()
                             }));
